@@ -5,6 +5,9 @@ CONSTANTS
   MaxCursor = 800
   MaxLimit = 400
   Limit = 100
+  Full = 10000
+  Macro = FALSE
+  Witness = "none"
   MaxId = 1000000
   MaxJobs = 8
   MaxCrash = 1000
